@@ -304,8 +304,13 @@ func runC05(c *core.Ctx, o Options) {
 	}
 	// ---- K2 census
 	nNum := 0
-	for _, fn := range s.allFuncs() {
-		an.AllInstrs(fn, func(in ssa.Instruction) {
+	for _, real := range s.allFuncs() {
+		// a helper cut out of its only caller counts as that caller (the numbering site, the resend handler)
+		fn := real
+		if real.Parent() == nil {
+			fn, _ = an.LogicalOwner(real)
+		}
+		an.AllInstrs(real, func(in ssa.Instruction) {
 			cc := an.CallOf(in)
 			if cc == nil || !cc.IsInvoke() {
 				return
@@ -407,6 +412,8 @@ func runC05(c *core.Ctx, o Options) {
 	checkImageFresh(c, "K9")
 	// ---- K10 a stopped session takes no further number: the timer goroutines test the session context after every wake-up
 	checkTimerRoutines(c, s, "K10")
+	// K11: what the session queues in order reaches the socket in order only if one goroutine per connection drains the queue
+	checkSinglePumps(c, "K11", libFuncs(c))
 	// ---- K6 acceptor swap: on every accepting-side path of the Logon handler the installed settings carry the peer's
 	// SenderCompID as TargetCompID and vice versa (symbolic evaluation of the settings object, see settings.go)
 	if lf := s.one(true, "Logon"); lf != nil {
@@ -515,7 +522,8 @@ func runC05(c *core.Ctx, o Options) {
 		ent := la.Entry[hsend]
 		c.Check(ent.Holds(hmu, "h", an.ModeW), "K8", "DefaultHandler.send", "every caller of send holds DefaultHandler.mu", hsend.Pos(), "entry lockset "+ent.String(), "send is reachable without DefaultHandler.mu (entry lockset "+ent.String()+")")
 	}
-	c.RuleMin = map[string]int{"K1": 6, "K2": 4, "K3": 8, "K4": 3, "K5": 8, "K6": 1, "K7": 3, "K8": 3, "K9": 2, "K10": 4}
+	c.Explanation += " K11 (= C04.F4): per connection exactly one goroutine of each serve function writes the socket, one reads and one forwards; two writers draining the same queue reorder the stream."
+	c.RuleMin = map[string]int{"K1": 6, "K2": 4, "K3": 8, "K4": 3, "K5": 8, "K6": 1, "K7": 3, "K8": 3, "K9": 2, "K10": 4, "K11": 5}
 	c.MinObl = 35
 }
 
